@@ -136,7 +136,7 @@ def _case(draw, tier):
         # fixed tuple (container(s)..., leaf) at the root
         node = ['tupf', [node] + ([draw(hints(max(d - 1, 0)))] if draw(st.booleans()) else []) + [['cls', 'int']], 't']
     return {'hint': node, 'shape': draw(shape_for(node)), 'variant': variant,
-            'draw': draw(st.sampled_from([0, 0, 1, 7, 2 ** 32 - 1]))}
+            'draw': draw(st.sampled_from([0, 0, 1, 7, 2 ** 32 - 1])), 'via_fwdref': draw(st.sampled_from([True, False, False, False]))}
 
 
 def strategy(tier):
@@ -211,10 +211,21 @@ def _measure(fn, top=None):
     return out, err, {'reads': reads, 'reprs': reprs, 'noncoll_iter': noncoll_iter}
 
 
+_FWD = [0]
+
+
 def run_case(case):
     node, shape, variant, r = case['hint'], case['shape'], case['variant'], case['draw']
     tier_sizes = SIZES['quick'] if not case.get('thorough') else SIZES['thorough']
     hint = H.build(node)
+    if case.get('via_fwdref'):
+        # the same hint reached through an absolute forward reference to a module attribute (an alias that is no class)
+        import sys
+        import types
+        mod = sys.modules.get('c09mod') or sys.modules.setdefault('c09mod', types.ModuleType('c09mod'))
+        _FWD[0] += 1
+        setattr(mod, 'Rec%d' % _FWD[0], hint)
+        hint = 'c09mod.Rec%d' % _FWD[0]
     bound = n_levels(node)
     fails, seen, evals = [], set(), 0
 
@@ -248,12 +259,16 @@ def run_case(case):
             c['verdict'] = 'reject' if rejected else 'accept'
             per_ep.setdefault(ep, []).append((n, c))
             limit = bound * (2 if describing else 1)
+            if case.get('via_fwdref'):
+                # through a forward-reference proxy the referent is checked once by the wrapper's isinstance() and once more,
+                # with its own description, by the proxy: a constant factor, still fixed by the hint alone
+                limit *= 2
             if c['reads'] > limit:
                 fail('reads-exceed-bound:%s' % ('describing' if describing else 'deciding'),
                      'size %d ep %s read %d items, bound from the hint is %d' % (n, ep, c['reads'], limit))
             if c['noncoll_iter']:
                 fail('non-collection-iterated', 'size %d ep %s called iter() on a non-collection iterable' % (n, ep))
-            if c['reprs'] > 3:
+            if c['reprs'] > (6 if case.get('via_fwdref') else 3):
                 fail('repr-count', 'size %d ep %s called repr() %d times on the checked object' % (n, ep, c['reprs']))
     # identical cost at every size, compared among runs with the same verdict (which item of a set is "first",
     # and which index a draw selects, legitimately depend on the size)
